@@ -539,6 +539,39 @@ pub fn build(kind: K, m: &Bits, p: Prov) -> AnyBv {
                 AnyBv::A(fresh_t::<Bv>(m))
             }
         }
+        Prov::SubWrap => {
+            // c = (2^n - value) mod 2^n; for value 0 subtract zero (no borrow, still a valid route)
+            let n = m.len();
+            let c = Bits::zeros(n).sub(m);
+            let rhs = Opd::V(Vo { v: fresh(kind, &c), p: Prov::Fresh });
+            crate::dispatch::bin(fresh(kind, &Bits::zeros(n)), crate::dispatch::BinOp::Sub, crate::dispatch::Form::AsgRef, &rhs)
+        }
+        Prov::AddWrap => {
+            let n = m.len();
+            let c = m.add(&Bits::from_u128(1, 1));
+            let rhs = Opd::V(Vo { v: fresh(kind, &c), p: Prov::Fresh });
+            crate::dispatch::bin(fresh(kind, &Bits::ones(n)), crate::dispatch::BinOp::Add, crate::dispatch::Form::AsgRef, &rhs)
+        }
+        Prov::GrowOnes => {
+            let n = m.len();
+            let up = kind.cap().map_or(n + kind.word() + 1, |c| c.min(n + 2 * kind.word() + 1));
+            let (x, _) = apply(fresh(kind, m), &Act::Resize(up, true));
+            let (x, _) = apply(x, &Act::Truncate(n));
+            x
+        }
+        Prov::ShrinkPush => {
+            let n = m.len();
+            let w = kind.word();
+            let b = (n - 1) / w * w;
+            let cut = b - 1;
+            let up = kind.cap().map_or(n + w, |c| c.min(n + w));
+            let start = m.slice(0, cut).concat_high(&Bits::ones(up - cut));
+            let (mut x, _) = apply(fresh(kind, &start), &Act::Truncate(cut));
+            for i in cut..n {
+                x = apply(x, &Act::Push(m.0[i])).0;
+            }
+            x
+        }
         Prov::Conv => match kind {
             K::D => AnyBv::D(Bvd::from(&fresh_t::<Bv>(m))),
             K::A => AnyBv::A(Bv::from(&fresh_t::<Bvd>(m))),
